@@ -7,6 +7,7 @@ toolchain go1.23.5
 require (
 	github.com/hashicorp/raft v1.7.3
 	github.com/hashicorp/raft-wal v0.0.0
+	github.com/segmentio/fasthash v1.0.3
 )
 
 require (
